@@ -70,7 +70,7 @@ contract(f"{Q}.dimensionless", params={"self": "Ref[PlainQuantity]"}, returns="B
          requires={"q": "QWF(self)"},
          ensures={"def": "result == forall[Str](lambda b: implies(b != '[]', DimOf(b, self._units) == 0))", "q": "QWF(self)",
                   "hashes": "HashesKept()"},
-         modifies=_mods + ["self._dimensionality"], trusted=True,
+         modifies=_mods + ["self._dimensionality", "self._dimensionality_units"], trusted=True,
          note="to_root_units().dimensionality is empty", props=["C15", "C05"])
 
 contract(f"{QTO}:_get_reduced_units",
@@ -93,7 +93,7 @@ contract(f"{QTO}:to_reduced_units",
                   "input_untouched": "quantity._magnitude == old(quantity._magnitude) and quantity._units == old(quantity._units)"},
          modifies=["contents(quantity._REGISTRY._cache.dimensionality)", "contents(quantity._REGISTRY._cache.root_units)",
                    "contents(quantity._REGISTRY._cache.conversion_factor)", "allof(UnitsContainer._hash)",
-                   "quantity._dimensionality"],
+                   "quantity._dimensionality", "quantity._dimensionality_units"],
          props=["C15"])
 
 contract(f"{QTO}:ito_reduced_units",
@@ -103,5 +103,5 @@ contract(f"{QTO}:ito_reduced_units",
          ensures={"same_value": "Phys(quantity) == old(Phys(quantity))"},
          modifies=["contents(quantity._REGISTRY._cache.dimensionality)", "contents(quantity._REGISTRY._cache.root_units)",
                    "contents(quantity._REGISTRY._cache.conversion_factor)", "allof(UnitsContainer._hash)",
-                   "quantity._magnitude", "quantity._units", "quantity._dimensionality"],
+                   "quantity._magnitude", "quantity._units", "quantity._dimensionality", "quantity._dimensionality_units"],
          props=["C15"])
